@@ -9,13 +9,17 @@ def R(name, pkg, test, q, t, qto=300, tto=1500, shards=8, **kw):
     """rapid sub-property: q/t = number of cases in quick/thorough."""
     d = dict(name=name, pkg=pkg, test=test, kind="rapid",
              quick=dict(checks=q, timeout=qto), thorough=dict(checks=t, shards=shards, timeout=tto))
-    d.update(kw)
+    if "race" in kw:
+        d["race"] = kw.pop("race")
+    d["common"] = kw
     return d
 
 def P(name, pkg, test, qto=300, tto=1500, **kw):
     """plain (enumerating / scripted) sub-property; depth is chosen from VERIF_TIER inside the test."""
     d = dict(name=name, pkg=pkg, test=test, kind="plain", quick=dict(timeout=qto), thorough=dict(timeout=tto))
-    d.update(kw)
+    if "race" in kw:
+        d["race"] = kw.pop("race")
+    d["common"] = kw
     return d
 
 PROPS = {}
@@ -33,5 +37,18 @@ PROPS["C19"] = dict(
         R("C19.distance_laws_random", "kad", "TestC19DistanceLawsRandom", 10000, 500000),
         P("C19.distance_laws_exhaustive", "kad", "TestC19DistanceLawsExhaustive"),
         R("C19.node_list_nearest", "kad", "TestC19NodeInfos", 2000, 80000),
+    ],
+)
+
+PROPS["C18"] = dict(
+    level="exploration",
+    technique="model-based property testing (rapid state machine vs reference map) plus exhaustive enumeration of short histories over a small key universe",
+    level_text="A rapid state machine drives the cache and a plain Go map with the same generated operations and compares the whole observable state after every step (count, full enumeration, every key, eviction victim rule, expiry set); short histories over an 8-key universe are enumerated completely. Holds on everything generated; exhaustive only to the reported depth.",
+    level_note="Trusts the reference map and an independent re-implementation of the bucket index. Creation times are real clock values (never the zero time); keys are at least as long as the locus.",
+    design_ref="4/C18",
+    assumptions=["entry creation times are non-zero (every caller passes a real clock)", "keys are at least as long as the locus", "when no bucket holds more than the per-bucket minimum any victim is accepted, only the capacity bound is required"],
+    subs=[
+        R("C18.model", "kad", "TestC18Model", 4000, 240000, steps=40),
+        P("C18.exhaustive", "kad", "TestC18Exhaustive"),
     ],
 )
